@@ -98,6 +98,27 @@ CHECKS.update({
    note="Trusted: server-side timestamps at the loopback targets; harness-side bracketing of when an update reached the explorer. Upper time bounds are bounded-progress restatements with workloads sized for >2x slack; lower bounds need no tolerance."),
 })
 
+
+E2_NOTE = ("Trusted: the simulated Prometheus (re-reads the generated file with config.Load and scrapes through the proxy), the simulated "
+           "StatefulSet, the target farm, and the stub explorer; coordinator, shard client, api.Get/api.Post, sidecar service/proxy/"
+           "targets manager/injector/config manager are the real code over loopback HTTP. 'Eventually' is decided as bounded progress "
+           "with the bound stated in the rule; a run that misses the bound is reported as a violation of that restatement.")
+
+CHECKS.update({
+ "C03": dict(engine="E2 closed loop", level="exploration", ref="DESIGN.md §5 C03",
+   technique="runtime monitoring of a closed loop: convergence/stability predicate over sidecar API snapshots after every cycle, per-cycle scale-up obligation monitor",
+   text="Generated worlds (limits, min/max, three idle-time modes, residue of head series, late pods, initial placements incl. overloaded shards, duplicates and pending transfers written into the stores) run a perturbed phase (growth, targets added/removed, uneven scrape rounds) and then a quiet phase in which the bounded restatement of the property must hold: converged and unchanged for 5 cycles within B = 10+4T+3*8 cycles. Every cycle is additionally checked for the scale-up obligation.",
+   note=E2_NOTE),
+ "C06": dict(engine="E2 closed loop", level="fault_enumeration", ref="DESIGN.md §5 C06",
+   technique="fault injection at harness-owned boundaries of a closed loop, enumerated single-fault placements + sampled/enumerated pairs, bounded-recovery monitor",
+   text="On four fixed small base schedules every placement of one fault (11 variants x 8 cycles x 3 shards; quick: complete on the two smallest schedules, strided on the others) plus pairs (quick: 200 sampled; thorough: every pair on the two smallest schedules and 3000 sampled triples) is executed; after the perturbed phase the loop must return to the C03 converged state within the bound and stay there. The fault space of small configurations is finite, which makes enumeration the right level.",
+   note=E2_NOTE),
+ "C19": dict(engine="E1 stub-cycle", level="exploration", ref="DESIGN.md §5 C19",
+   technique="differential runtime monitoring: request traces of a replica run alone vs. next to a hostile replica (both orders), multi-cycle, real coordinator",
+   text="For scripted multi-cycle scenarios the canonical trace of everything a replica's shards and manager receive is recorded when the replica is coordinated alone and when a hostile replica (listing or scaling failures, unready, out of sync, another placement of the same targets) is coordinated before or after it in the same cycles; the traces must be identical cycle by cycle. Cases whose own outcome depends on map order are detected by 30 (+100 on a mismatch) repetitions of the victim alone and discarded.",
+   note=E1_NOTE + " A mismatch is reported only if 130 executions of the victim alone all produce the reference trace."),
+})
+
 NOT_YET = {
 }
 
@@ -152,6 +173,8 @@ def main():
              "kind_free_text": "coordinator-side pipeline wired as cmd/kvass/coordinator.go; loopback HTTP targets; porcupine; race-detector pass"},
             {"name": "E6 kubernetes fake", "path": "harness/internal/e6", "serves_properties": ["C18"],
              "kind_free_text": "real kubernetes replicas/shard manager on client-go fake clientset; action log as event log"},
+            {"name": "E2 closed loop", "path": "harness/internal/e2", "serves_properties": ["C03", "C06"],
+             "kind_free_text": "real coordinator + real sidecars over loopback HTTP, simulated Prometheus/StatefulSet/target farm, stepped cycles, fault wrappers"},
             {"name": "E3 sidecar", "path": "harness/internal/e3", "serves_properties": ["C09", "C10", "C12", "C13", "C14"],
              "kind_free_text": "one real sidecar driven through its HTTP API and proxy; in-memory and raw-TCP targets; RLIMIT_FSIZE crash child; real binary under SIGKILL"},
         ],
